@@ -494,4 +494,43 @@ theorem loop_fold {α : Type} (X : Ctx) (c : Expr) (post body : Stmt) (g : Nat)
       simp only [hc a ha, Res.out_ok, condK_bool, hca, if_true]
       rw [hb a (fuel + (n + 1)) ha hca, show fuel + (n + 1) + g = fuel + n + g + 1 by omega, exec_succ, ih, hl1 a ha hca]
 
+/-- the parts of a loop statement (so that lemmas about one iteration can be stated without repeating the term) -/
+def Stmt.lcond : Stmt → Expr
+  | .loop c _ _ => c
+  | _ => .lit (.bool false)
+def Stmt.lpost : Stmt → Stmt
+  | .loop _ p _ => p
+  | _ => .skip
+def Stmt.lbody : Stmt → Stmt
+  | .loop _ _ b => b
+  | _ => .skip
+
+/-- The relational form of `loop_fold`, for loops whose final state is best described by an invariant: the loop
+    ends normally in some abstract state that satisfies the invariant and falsifies the condition. -/
+theorem loop_inv {α : Type} (X : Ctx) (c : Expr) (post body : Stmt) (g : Nat)
+    (abs : α → State) (inv : α → Prop) (cnd : α → Bool) (next : α → α) (m : α → Nat)
+    (hc : ∀ a, inv a → evalE X (abs a) c = .ok (.bool (cnd a)))
+    (hb : ∀ a fuel, inv a → cnd a = true →
+      (execS X (exec X (fuel + g)) body (abs a)).loopBody (fun σ' => (execS X (exec X (fuel + g)) post σ').loopPost
+        (exec X (fuel + g) (.loop c post body))) = exec X (fuel + g) (.loop c post body) (abs (next a)))
+    (hi : ∀ a, inv a → cnd a = true → inv (next a))
+    (hm : ∀ a, inv a → cnd a = true → m (next a) < m a) :
+    ∀ (n : Nat) (a : α) (fuel : Nat), inv a → m a ≤ n →
+      ∃ a', execS X (exec X (fuel + n + g)) (.loop c post body) (abs a) = .normal (abs a') ∧ inv a' ∧ cnd a' = false
+  | 0, a, fuel, ha, hn => by
+    have hca : cnd a = false := by
+      cases hca : cnd a
+      · rfl
+      · have := hm a ha hca; omega
+    exact ⟨a, by simp [execS_loop, hc a ha, hca], ha, hca⟩
+  | n + 1, a, fuel, ha, hn => by
+    cases hca : cnd a
+    · exact ⟨a, by simp [execS_loop, hc a ha, hca], ha, hca⟩
+    · obtain ⟨a', h1, h2, h3⟩ := loop_inv X c post body g abs inv cnd next m hc hb hi hm n (next a) fuel (hi a ha hca)
+        (by have := hm a ha hca; omega)
+      refine ⟨a', ?_, h2, h3⟩
+      rw [execS_loop]
+      simp only [hc a ha, Res.out_ok, condK_bool, hca, if_true]
+      rw [hb a (fuel + (n + 1)) ha hca, show fuel + (n + 1) + g = fuel + n + g + 1 by omega, exec_succ, h1]
+
 end ZapVerif.GoMini
